@@ -99,7 +99,8 @@ TraceNext ==
             /\ AllEnded(open)
             /\ NoHole(claimed, sent)
             /\ (~pclosed /\ e.peerdone) => \A w \in okW : Delivered(recv, writes, w)
-            /\ (\A w \in DOMAIN writes : WriteAtomic(recv, w)) \/ PrintT(<<"NONATOMIC", l>>)   \* observation only
+            /\ IF \A w \in DOMAIN writes : WriteAtomic(recv, w) THEN TRUE
+               ELSE PrintT(<<"NONATOMIC", l>>)                        \* observation only, never a rejection
             /\ UNCHANGED <<writes, pred, okW, recv, sent, claimed, floor, maxEnd, open, pclosed>>
        [] OTHER ->
             UNCHANGED <<writes, pred, okW, recv, sent, claimed, floor, maxEnd, open, pclosed>>
